@@ -598,7 +598,10 @@ def c15(ctx):
                 "bindings; ccode, the C89 and the C99 printer print each, the C compiler compiles the printed source "
                 "(-std=c89 / -std=c99) and the program is run; TLC validates that what was printed compiles and that "
                 "the computed double agrees to 2^-40 with the library's evaluation of the expression at the binding")
-    simple(ctx, "MC_C15", "Trace_C15", floor=0.5)
+    # (a batch compiles three C files: generous per-case limit on a loaded machine)
+    cases = ctx.gen("MC_C15")
+    events = ctx.drive("base", cases, env={"SEV_CASE_TIMEOUT": "300"}, timeout=3000)
+    ctx.judge(ctx.validate("Trace_C15", events, floor=0.5), cases)
 
 
 # ---------------------------------------------------------------------- C43
